@@ -115,6 +115,20 @@ def opc_target(source_part: str, dest_part: str, style: str) -> str:
     raise ValueError(style)
 
 
+def content_types_head(spec) -> str:
+    """[Content_Types].xml head; spec["ct_mode"]: "defaults" (usual), "overrides" (one Override per media part, no image
+    Defaults), "none" (images not declared at all)"""
+    mode = spec.get("ct_mode", "defaults")
+    if mode == "defaults":
+        return CT_HEAD
+    head = CT_HEAD[:CT_HEAD.index('<Default Extension="png"')]
+    if mode == "overrides":
+        for m in spec["media"]:
+            if m.get("present", True):
+                head += f'<Override PartName={quoteattr("/" + m["part"])} ContentType="{CTYPE[m["kind"]]}"/>'
+    return head
+
+
 def media_members(spec):
     """(member name, bytes) in archive order; a media with "dup_first" is preceded by an entry of the SAME name holding
     other bytes (zipfile and read_zip_member resolve a name to the last central-directory entry)"""
@@ -164,7 +178,7 @@ def build_docx(spec) -> bytes:
             rels.append((rid, T_IMAGE, pl["target"], "External" if pl["style"] == "external" else ""))
     for extra in spec.get("extra_rels", []):
         rels.append((extra[0], T_IMAGE, extra[1], ""))
-    ct = CT_HEAD + ('<Override PartName="/word/document.xml" ContentType="application/vnd.openxmlformats-officedocument.'
+    ct = content_types_head(spec) + ('<Override PartName="/word/document.xml" ContentType="application/vnd.openxmlformats-officedocument.'
                     'wordprocessingml.document.main+xml"/></Types>')
     members = [("[Content_Types].xml", ct.encode()),
                ("_rels/.rels", _rels([("rId1", REL + "/officeDocument", "word/document.xml", "")])),
@@ -183,7 +197,7 @@ def _pptx_pic(rid: str, k: int, x: int, y: int) -> str:
 
 def build_pptx(spec) -> bytes:
     members = []
-    ct = CT_HEAD + ('<Override PartName="/ppt/presentation.xml" ContentType="application/vnd.openxmlformats-officedocument.'
+    ct = content_types_head(spec) + ('<Override PartName="/ppt/presentation.xml" ContentType="application/vnd.openxmlformats-officedocument.'
                     'presentationml.presentation.main+xml"/>')
     prels, ids = [], []
     nslides = len(spec["units"])
@@ -246,7 +260,7 @@ def build_xlsx(spec) -> bytes:
     n = len(spec["units"])
     files = spec.get("sheet_files") or list(range(1, n + 1))
     dstyle = spec.get("drawing_style", "parent1")
-    ct = CT_HEAD + ('<Override PartName="/xl/workbook.xml" ContentType="application/vnd.openxmlformats-officedocument.'
+    ct = content_types_head(spec) + ('<Override PartName="/xl/workbook.xml" ContentType="application/vnd.openxmlformats-officedocument.'
                     'spreadsheetml.sheet.main+xml"/>')
     members, wrels, sheets = [], [], []
     for i, unit in enumerate(spec["units"]):
@@ -346,9 +360,15 @@ def build_odf(spec) -> bytes:
            'manifest:1.0" manifest:version="1.2">',
            f'<manifest:file-entry manifest:full-path="/" manifest:media-type="{ODF_MIME[fmt]}"/>',
            '<manifest:file-entry manifest:full-path="content.xml" manifest:media-type="text/xml"/>']
+    # what the manifest says about a picture is the producer's business: typed (LibreOffice), empty media-type
+    # (OpenOffice.org 1.x/2.x, converters), a generic type, or no entry at all
     for m in spec["media"]:
         if m.get("present", True):
-            man.append(f'<manifest:file-entry manifest:full-path={quoteattr(m["part"])} manifest:media-type="{CTYPE[m["kind"]]}"/>')
+            mode = m.get("manifest", "typed")
+            if mode == "absent":
+                continue
+            mt = {"typed": CTYPE[m["kind"]], "empty": "", "generic": "application/octet-stream"}[mode]
+            man.append(f'<manifest:file-entry manifest:full-path={quoteattr(m["part"])} manifest:media-type="{mt}"/>')
     man.append("</manifest:manifest>")
     buf = io.BytesIO()
     with zipfile.ZipFile(buf, "w", zipfile.ZIP_DEFLATED) as z:
